@@ -291,6 +291,8 @@ def _bad_op(rng, sh, k, corrupt_fn=None):
         ln = rng.choice(["E\t%s\t%s+\tY Z+\t0\t5\t5\t10$\t*" % (sh.fresh(rng), x),
                          "G\t%s\t%s+\ta b-\t10\t*" % (sh.fresh(rng), x),
                          "E\t%s\t%s+\t%s\t0\t5\t5\t10$\t*" % (sh.fresh(rng), x, y),
+                         "G\t%s\t%s+\t%s\t10\t*" % (sh.fresh(rng), x, y),
+                         "G\t%s\t%s-\t%s\t*\t*" % (sh.fresh(rng), x, rng.choice(segs) if segs else y),
                          "E\t%s\t%s+\t%s-\tx\t5\t5\t10$\t*" % (y, x, sh.fresh(rng))])
         return kind, [{"op": "add", "line": g, "as": "str"}, {"op": "add", "line": ln, "as": rng.choice(["str", "obj"])}]
     if kind == "set_field_none" and (sh.anon or ids):
